@@ -29,7 +29,7 @@ def main():
         env = "VERIF_REPO=%s VERIF_WORK=%s/work VERIF_EVID=%s/evidence VERIF_TIER=%s" % (wt, area, area, tier)
         for c in checks:
             t0 = time.time()
-            r = sh("cd /verif && %s bin/check %s" % (env, c), timeout=7200)
+            r = sh("cd %s && %s bin/check %s" % (os.environ.get("VERIF_HOME", "/verif"), env, c), timeout=7200)
             vio = [l[:500] for l in r.stdout.splitlines() if l.startswith("VIOLATION")]
             runs[c] = {"exit": r.returncode, "violations": len(vio), "first": vio[:3], "wall_s": round(time.time() - t0, 1),
                        "tail": r.stdout.strip().splitlines()[-6:] if r.returncode != 0 else []}
